@@ -28,7 +28,8 @@ DECIDES = ('ConstantStreamGenerator (byte stream and the 32-bit SuperSpeed strea
            'say); (progress) with ready high the next word is handed over within 3 cycles; (completes) every (start, '
            'max_length) transfer actually runs to done (the rest is not vacuous). Structural: the ROM image holds every '
            'byte of the constant, the bytes of a word in the configured lane order; position register and start_position '
-           'input are wide enough for every element; the serializer payload is pure routing of data[]. ')
+           'input are wide enough for every element; the serializer payload is pure routing of data[]. '
+           'The valid-lane obligation has two instances per stream family: words cut short by max_length, and words not cut (whole words, final word of the data). ')
 NOT_DECIDED = ('lengths above the explored bound and max_length widths other than those enumerated (the construction is uniform '
                'but that is not proven; for the 16-bit width only max_length 0..L+5, 32768 and 65535 are explored); a start position '
                'at or after the end of the data -- the property speaks of a start position within the data, so what the '
